@@ -22,81 +22,136 @@ int Debug::printf(const char* format, ...)
   return r;
 }
 
-enum { NE = 3, NG = 3, NL = 3, NS = 2, MAXK = 8, MAXACT = 8, MAXLOG = 1 << 16 };
+enum { NE = 3, NG = 9, NV = 10, NL = 3, NS = 2, MAXK = 8, MAXACT = 8, MAXLOG = 1 << 16 };
 
 struct Act
 {
   char kind; // c d m L E n w
-  int e, g, l, s;
+  int e, g, l, s, v;
 };
 
 static Act script[NL][NS][MAXK][MAXACT];
 static int scriptLen[NL][NS][MAXK];
 static int invCount[NL][NS];
-static int logBuf[MAXLOG][2];
+// log events: 'c' slot invocation (listener index, slot, argument received), 'b' start of an emit call
+// (emitter variable, signal, argument given), 'e' its return
+static int logBuf[MAXLOG][4];
 static int logLen;
+
+static void logEv(int kind, int a, int b, int c)
+{
+  if(logLen < MAXLOG)
+  {
+    logBuf[logLen][0] = kind;
+    logBuf[logLen][1] = a;
+    logBuf[logLen][2] = b;
+    logBuf[logLen][3] = c;
+    ++logLen;
+  }
+}
 
 struct Em : public Callback::Emitter
 {
   int id;
   Em(int id) : id(id) {}
-  // signal 0 uses the arity-0 overloads of emit/connect/disconnect, signal 1 the arity-1 overloads,
-  // signal 2 the arity-8 overloads
+  // signal g has g parameters: it goes through the arity-g overloads of emit/connect/disconnect
   void sig0() {}
   void sig1(int) {}
-  void sig2(int, int, int, int, int, int, int, int) {}
-  void fire(int g)
+  void sig2(int, int) {}
+  void sig3(int, int, int) {}
+  void sig4(int, int, int, int) {}
+  void sig5(int, int, int, int, int) {}
+  void sig6(int, int, int, int, int, int) {}
+  void sig7(int, int, int, int, int, int, int) {}
+  void sig8(int, int, int, int, int, int, int, int) {}
+  // the emitter may be deleted by a slot: nothing reads `this` after `emit` has returned
+  void fire(int g, int v)
   {
-    if(g == 0) emit(&Em::sig0);
-    else if(g == 1) emit<Em, int>(&Em::sig1, 7);
-    else emit<Em, int, int, int, int, int, int, int, int>(&Em::sig2, 1, 2, 3, 4, 5, 6, 7, 8);
+    switch(g)
+    {
+    case 0: emit(&Em::sig0); break;
+    case 1: emit<Em, int>(&Em::sig1, v); break;
+    case 2: emit<Em, int, int>(&Em::sig2, v, v + 1); break;
+    case 3: emit<Em, int, int, int>(&Em::sig3, v, v + 1, v + 2); break;
+    case 4: emit<Em, int, int, int, int>(&Em::sig4, v, v + 1, v + 2, v + 3); break;
+    case 5: emit<Em, int, int, int, int, int>(&Em::sig5, v, v + 1, v + 2, v + 3, v + 4); break;
+    case 6: emit<Em, int, int, int, int, int, int>(&Em::sig6, v, v + 1, v + 2, v + 3, v + 4, v + 5); break;
+    case 7: emit<Em, int, int, int, int, int, int, int>(&Em::sig7, v, v + 1, v + 2, v + 3, v + 4, v + 5, v + 6); break;
+    default: emit<Em, int, int, int, int, int, int, int, int>(&Em::sig8, v, v + 1, v + 2, v + 3, v + 4, v + 5, v + 6, v + 7); break;
+    }
   }
 };
 
-static void runSlot(int l, int s);
+static void runSlot(int l, int s, int v);
+
+// the tuple must arrive complete and in order: (v, v+1, ..., v+k-1)
+static bool inOrder(int k, const int* a)
+{
+  for(int i = 1; i < k; ++i)
+    if(a[i] != a[0] + i)
+      return false;
+  return true;
+}
 
 struct Li : public Callback::Listener
 {
   int id;
   Li(int id) : id(id) {}
-  // `id` is read through `this`: invoking a slot of a deleted listener is a heap-use-after-free
-  void slot0() { runSlot(id, 0); }
-  void slot1() { runSlot(id, 1); }
-  // the same two slots with the signature of signal 1
-  void slot0a(int a) { runSlot(a == 7 ? id : -1, 0); }
-  void slot1a(int a) { runSlot(a == 7 ? id : -1, 1); }
-  // ... and of signal 2 (all eight arguments must arrive in order)
-  static bool args8(int a, int b, int c, int d, int e, int f, int g, int h)
-  {
-    return a == 1 && b == 2 && c == 3 && d == 4 && e == 5 && f == 6 && g == 7 && h == 8;
-  }
-  void slot0h(int a, int b, int c, int d, int e, int f, int g, int h) { runSlot(args8(a, b, c, d, e, f, g, h) ? id : -1, 0); }
-  void slot1h(int a, int b, int c, int d, int e, int f, int g, int h) { runSlot(args8(a, b, c, d, e, f, g, h) ? id : -1, 1); }
+  // `id` is read through `this`: invoking a slot of a deleted listener is a heap-use-after-free.
+  // A tuple that did not arrive as sent logs listener -1.
+#define SLOT_PAIR(K, PARAMS, INIT) \
+  void slot0_##K PARAMS { int t[9] = INIT; runSlot(inOrder(K, t) ? id : -1, 0, t[0]); } \
+  void slot1_##K PARAMS { int t[9] = INIT; runSlot(inOrder(K, t) ? id : -1, 1, t[0]); }
+#define ARR(...) {__VA_ARGS__}
+  SLOT_PAIR(0, (), ARR(0))
+  SLOT_PAIR(1, (int a), ARR(a))
+  SLOT_PAIR(2, (int a, int b), ARR(a, b))
+  SLOT_PAIR(3, (int a, int b, int c), ARR(a, b, c))
+  SLOT_PAIR(4, (int a, int b, int c, int d), ARR(a, b, c, d))
+  SLOT_PAIR(5, (int a, int b, int c, int d, int e), ARR(a, b, c, d, e))
+  SLOT_PAIR(6, (int a, int b, int c, int d, int e, int f), ARR(a, b, c, d, e, f))
+  SLOT_PAIR(7, (int a, int b, int c, int d, int e, int f, int g), ARR(a, b, c, d, e, f, g))
+  SLOT_PAIR(8, (int a, int b, int c, int d, int e, int f, int g, int h), ARR(a, b, c, d, e, f, g, h))
 };
+
+#define FOR_ARITIES(X) X(0) X(1) X(2) X(3) X(4) X(5) X(6) X(7) X(8)
 
 static void doConnect(Em* e, int g, Li* l, int s)
 {
-  if(g == 0) Callback::connect(e, &Em::sig0, l, s == 0 ? &Li::slot0 : &Li::slot1);
-  else if(g == 1) Callback::connect(e, &Em::sig1, l, s == 0 ? &Li::slot0a : &Li::slot1a);
-  else Callback::connect(e, &Em::sig2, l, s == 0 ? &Li::slot0h : &Li::slot1h);
+  switch(g)
+  {
+#define X(K) case K: Callback::connect(e, &Em::sig##K, l, s == 0 ? &Li::slot0_##K : &Li::slot1_##K); break;
+  FOR_ARITIES(X)
+#undef X
+  }
 }
 
 static void doDisconnect(Em* e, int g, Li* l, int s)
 {
-  if(g == 0) Callback::disconnect(e, &Em::sig0, l, s == 0 ? &Li::slot0 : &Li::slot1);
-  else if(g == 1) Callback::disconnect(e, &Em::sig1, l, s == 0 ? &Li::slot0a : &Li::slot1a);
-  else Callback::disconnect(e, &Em::sig2, l, s == 0 ? &Li::slot0h : &Li::slot1h);
+  switch(g)
+  {
+#define X(K) case K: Callback::disconnect(e, &Em::sig##K, l, s == 0 ? &Li::slot0_##K : &Li::slot1_##K); break;
+  FOR_ARITIES(X)
+#undef X
+  }
 }
 
 static Callback::MemberFuncPtr sigPtr(int g)
 {
-  return g == 0 ? Callback::MemberFuncPtr(&Em::sig0) : g == 1 ? Callback::MemberFuncPtr(&Em::sig1) : Callback::MemberFuncPtr(&Em::sig2);
+  switch(g)
+  {
+#define X(K) case K: return Callback::MemberFuncPtr(&Em::sig##K);
+  FOR_ARITIES(X)
+#undef X
+  }
+  return Callback::MemberFuncPtr(&Em::sig0);
 }
-// index of a slot pointer (either signature)
+// index of a slot pointer (any signature)
 static int slotIndexOf(const Callback::MemberFuncPtr& p)
 {
-  if(p == Callback::MemberFuncPtr(&Li::slot0) || p == Callback::MemberFuncPtr(&Li::slot0a) || p == Callback::MemberFuncPtr(&Li::slot0h)) return 0;
-  if(p == Callback::MemberFuncPtr(&Li::slot1) || p == Callback::MemberFuncPtr(&Li::slot1a) || p == Callback::MemberFuncPtr(&Li::slot1h)) return 1;
+#define X(K) if(p == Callback::MemberFuncPtr(&Li::slot0_##K)) return 0; if(p == Callback::MemberFuncPtr(&Li::slot1_##K)) return 1;
+  FOR_ARITIES(X)
+#undef X
   return -1;
 }
 
@@ -116,7 +171,12 @@ static void doAct(const Act& a)
     if(em[a.e] && li[a.l]) doDisconnect(em[a.e], a.g, li[a.l], a.s);
     break;
   case 'm':
-    if(em[a.e]) em[a.e]->fire(a.g);
+    if(em[a.e])
+    {
+      logEv('b', a.e, a.g, a.v);
+      em[a.e]->fire(a.g, a.v);
+      logEv('e', 0, 0, 0);
+    }
     break;
   case 'L':
     if(li[a.l])
@@ -157,14 +217,11 @@ static void doAct(const Act& a)
   }
 }
 
-static void runSlot(int l, int s)
+static void runSlot(int l, int s, int v)
 {
-  if(logLen < MAXLOG)
-  {
-    logBuf[logLen][0] = l;
-    logBuf[logLen][1] = s;
-    ++logLen;
-  }
+  logEv('c', l, s, v);
+  if(l < 0)
+    return;
   int idx = invCount[l][s]++;
   if(idx >= MAXK)
     return;
@@ -217,7 +274,12 @@ static void observe()
 {
   printf("log");
   for(int i = 0; i < logLen; ++i)
-    printf(" %d.%d", logBuf[i][0], logBuf[i][1]);
+    if(logBuf[i][0] == 'c')
+      printf(" %d.%d:%d", logBuf[i][1], logBuf[i][2], logBuf[i][3]);
+    else if(logBuf[i][0] == 'b')
+      printf(" <%d.%d:%d", logBuf[i][1], logBuf[i][2], logBuf[i][3]);
+    else
+      printf(" >");
   printf(" |");
   for(int e = 0; e < NE; ++e)
   {
@@ -227,16 +289,18 @@ static void observe()
       printf("x");
       continue;
     }
+    // only the signals with entries (or a set flag) are listed
+    bool any = false;
     for(int g = 0; g < NG; ++g)
     {
-      printf("%sg%d=", g ? " " : "", g);
       Map<Callback::MemberFuncPtr, Callback::Emitter::SignalData>::Iterator it = em[e]->signalData.find(sigPtr(g));
       if(it == em[e]->signalData.end())
-      {
-        printf("-");
         continue;
-      }
       Callback::Emitter::SignalData& d = *it;
+      if(d.slots.isEmpty() && !d.dirty && !d.activation)
+        continue;
+      printf("%sg%d=", any ? " " : "", g);
+      any = true;
       if(d.slots.isEmpty())
         printf("-");
       bool first = true;
@@ -253,6 +317,8 @@ static void observe()
       if(d.dirty || d.activation)
         printf("!");
     }
+    if(!any)
+      printf("-");
   }
   printf(" |");
   for(int l = 0; l < NL; ++l)
@@ -295,11 +361,11 @@ static bool parseAction(const char* t, Act& a)
 {
   size_t n = strlen(t);
   a.kind = t[0];
-  a.e = a.g = a.l = a.s = 0;
+  a.e = a.g = a.l = a.s = a.v = 0;
   if((t[0] == 'c' || t[0] == 'd') && n == 5)
     return digit(t[1], NE, a.e) && digit(t[2], NG, a.g) && digit(t[3], NL, a.l) && digit(t[4], NS, a.s);
-  if(t[0] == 'm' && n == 3)
-    return digit(t[1], NE, a.e) && digit(t[2], NG, a.g);
+  if(t[0] == 'm' && n == 4)
+    return digit(t[1], NE, a.e) && digit(t[2], NG, a.g) && digit(t[3], NV, a.v) && !(a.g == 0 && a.v != 0);
   if(t[0] == 'L' && n == 2)
     return digit(t[1], NL, a.l);
   if(t[0] == 'E' && n == 2)
@@ -323,6 +389,38 @@ static bool numTok(const HxLine& l, int i, int bound, int& out)
   return out < bound;
 }
 
+// Reference parameters (not modelled; the expected line follows from the C++ rules): `emit` declares its
+// parameters with the types of the signal, so with `A = int&` every slot gets the caller's object itself.
+struct REm : public Callback::Emitter
+{
+  void sig(int&, const int&, int*) {}
+  void fire(int& a, const int& b, int* c) { emit<REm, int&, const int&, int*>(&REm::sig, a, b, c); }
+};
+
+struct RLi : public Callback::Listener
+{
+  void slot(int& a, const int& b, int* c)
+  {
+    printf(" %d:%d:%d", a, b, *c);
+    a += 1;
+    *c += b;
+  }
+};
+
+static void refArgs(int v)
+{
+  REm e;
+  RLi l0, l1;
+  Callback::connect(&e, &REm::sig, &l0, &RLi::slot);
+  Callback::connect(&e, &REm::sig, &l1, &RLi::slot);
+  Callback::connect(&e, &REm::sig, &l0, &RLi::slot);
+  int a = v, b = 2, c = 0;
+  printf("ref");
+  e.fire(a, b, &c);
+  printf(" | %d %d", a, c);
+  hxEndLine();
+}
+
 static void bad()
 {
   printf("bad-op");
@@ -336,7 +434,16 @@ int main()
   while(hxRead(l))
   {
     Act a;
-    a.e = a.g = a.l = a.s = 0;
+    a.e = a.g = a.l = a.s = a.v = 0;
+    if(hxIs(l, "refargs", 1))
+    {
+      int v;
+      if(numTok(l, 1, NV, v))
+        refArgs(v);
+      else
+        bad();
+      continue;
+    }
     if(hxIs(l, "reset", 0))
     {
       resetAll();
@@ -390,10 +497,10 @@ int main()
       a.kind = l.tok[0][0];
       ok = numTok(l, 1, NE, a.e) && numTok(l, 2, NG, a.g) && numTok(l, 3, NL, a.l) && numTok(l, 4, NS, a.s);
     }
-    else if(hxIs(l, "emit", 2))
+    else if(hxIs(l, "emit", 3))
     {
       a.kind = 'm';
-      ok = numTok(l, 1, NE, a.e) && numTok(l, 2, NG, a.g);
+      ok = numTok(l, 1, NE, a.e) && numTok(l, 2, NG, a.g) && numTok(l, 3, NV, a.v) && !(a.g == 0 && a.v != 0);
     }
     else if(hxIs(l, "dell", 1))
     {
